@@ -30,10 +30,12 @@ PROP_FILE = 'theories/Properties/C11.v'
 MODEL_FILES = ['theories/Model/History.v']
 GEN_GROUPS = []
 RULE = ('per class 12 (quick) / 120 (thorough) random call histories of length 1-8 drawn from ctx.rng: styles guard (fit/summary '
-        'before the required specifications), toggle (specify with bound / user learner, fit, specify again without, fit), respecify (other formula / bound / stabilized flag / distribution), refit (other plan: '
+        'before the required specifications), toggle (specify with bound / user learner, fit, specify again without, fit), respecify (other formula / bound / stabilized flag / distribution), repeat (fit two or three times in a row, with or without one respecification in between), refit (other plan: '
         "'all' then 'none', p=0.8 then p=0.1, other seed, other solver), random; summary() and every diagnostic/plot method interleaved "
         '(Agg backend, stdout captured); data n=40-160 rows, binary/normal/poisson outcome, missing outcomes, range/shifted/shuffled/str '
-        'index.  The caller\'s objects are compared with a deep snapshot (values incl. NaN positions, columns, dtypes, index, ndarray '
+        'index; every class with a weights= argument (IPTW, StochasticIPTW, TimeFixedGFormula under all three standardize targets, '
+        'SurvivalGFormula, AIPTW, GEstimationSNM, IPSW, GTransportFormula) gets a non-constant positive integer weight column in every '
+        'second history.  The caller\'s objects are compared with a deep snapshot (values incl. NaN positions, columns, dtypes, index, ndarray '
         'writeable flag) after the constructor and after every call.  Fresh-object comparison: every public attribute (DataFrames by '
         'column name, arrays, scalars, fitted-model params) exact or 1e-9 relative, plus the summary() text.  Model-vs-implementation: '
         'raise/no-raise per call, specification in force per slot (stored formula strings where the class keeps them).  Not counted '
@@ -336,6 +338,7 @@ def gen_frame(rng, cfg):
     df = pd.DataFrame({'W0': W0, 'W1': W1, 'C0': C0, 'C1': C1, 'A': A, 'Y': Y})
     if cfg.get('fw'):
         df['fw'] = rs.randint(1, 4, size=n)
+        df.loc[df.index[:4], 'fw'] = [1, 2, 3, 2]
     if cfg.get('missing'):
         if cfg['missing'] == 'mcar':
             m = rs.binomial(1, 0.15, size=n)
@@ -386,6 +389,9 @@ def gen_long(rng, cfg):
                 break
     rng.shuffle(rows)
     df = pd.DataFrame(rows)
+    if cfg.get('fw'):                                   # non-constant positive integer weights, constant within id
+        wid = {i: 1 + k % 3 if k < 6 else rng.randint(1, 3) for k, i in enumerate(ids)}
+        df['fw'] = [wid[i] for i in df['id']]
     set_index(df, cfg.get('index', 'range'), rng)
     return df
 
@@ -449,6 +455,9 @@ def gen_general(rng, cfg):
     else:
         Y = np.round(2 + 0.8 * A + 0.5 * W0 + rs.normal(size=n), 3)
     df = pd.DataFrame({'W0': W0, 'C0': C0, 'S': S, 'A': A, 'Y': Y})
+    if cfg.get('fw'):
+        df['fw'] = rs.randint(1, 4, size=n)
+        df.loc[df.index[:4], 'fw'] = [1, 2, 3, 2]
     df.loc[df['S'] == 0, ['A', 'Y']] = np.nan
     set_index(df, cfg.get('index', 'range'), rng)
     return df
@@ -536,7 +545,7 @@ class FamIPTW(Fam):
     def gen_cfg(self, rng):
         return {'outcome': rng.choice(['binary', 'binary', 'normal']), 'missing': rng.choice([None, 'mar', 'mcar']),
                 'standardize': rng.choice(['population', 'population', 'exposed', 'unexposed']), 'index': rng.choice(INDEXES),
-                'fw': rng.random() < 0.2}
+                'fw': rng.random() < 0.4}
 
     def slot_ok(self, slot, cfg):
         return slot != 1 or bool(cfg['missing'])
@@ -589,7 +598,7 @@ class FamStochIPTW(Fam):
 
     def gen_cfg(self, rng):
         return {'outcome': rng.choice(['binary', 'normal']), 'missing': rng.choice([None, None, 'mcar']), 'index': rng.choice(INDEXES),
-                'fw': rng.random() < 0.2}
+                'fw': rng.random() < 0.4}
 
     def gen_inputs(self, rng, cfg):
         return {'df': gen_frame(rng, cfg), 'p_pair': [0.75, 0.9], 'conditional': ["df['C0']==1", "df['C0']==0"],
@@ -709,9 +718,9 @@ class FamTimeFixed(Fam):
 
     def gen_cfg(self, rng):
         out = rng.choice(['binary', 'binary', 'normal', 'poisson'])
-        fw = rng.random() < 0.25
+        fw = rng.random() < 0.4
         return {'outcome': out, 'missing': rng.choice([None, None, 'mar']), 'index': rng.choice(INDEXES), 'fw': fw,
-                'standardize': 'population' if fw else rng.choice(['population', 'population', 'exposed', 'unexposed'])}
+                'standardize': rng.choice(['population', 'population', 'exposed', 'unexposed'])}
 
     def gen_inputs(self, rng, cfg):
         return {'df': gen_frame(rng, cfg), 'conditional': ["g['C0']==1", "g['C0']==0"], 'p_pair': [0.75, 0.9]}
@@ -754,14 +763,14 @@ class FamSurvival(Fam):
     diags = [('plot', [0], True, lambda o: o.plot())]
 
     def gen_cfg(self, rng):
-        return {'index': rng.choice(INDEXES)}
+        return {'index': rng.choice(INDEXES), 'fw': rng.random() < 0.4}
 
     def gen_inputs(self, rng, cfg):
         return {'df': gen_long(rng, cfg)}
 
     def construct(self, inp, cfg):
         from zepid.causal.gformula import SurvivalGFormula
-        return SurvivalGFormula(inp['df'], idvar='id', exposure='A', outcome='d', time='t')
+        return SurvivalGFormula(inp['df'], idvar='id', exposure='A', outcome='d', time='t', weights='fw' if cfg['fw'] else None)
 
     def gen_spec(self, rng, slot, cfg):
         return {'model': rng.choice(['A + t + W', 'A + t', 'A + t + I(t**2) + W + C0', 'A*t + W'])}
@@ -875,7 +884,7 @@ class FamAIPTW(Fam):
 
     def gen_cfg(self, rng):
         return {'outcome': rng.choice(['binary', 'binary', 'normal']), 'missing': rng.choice([None, 'mar', 'mcar']),
-                'index': rng.choice(INDEXES), 'alpha': rng.choice([0.05, 0.05, 0.1]), 'fw': False}
+                'index': rng.choice(INDEXES), 'alpha': rng.choice([0.05, 0.05, 0.1]), 'fw': rng.random() < 0.4 and self.name == 'AIPTW'}
 
     def slot_ok(self, slot, cfg):
         return slot != 2 or bool(cfg['missing'])
@@ -885,7 +894,7 @@ class FamAIPTW(Fam):
 
     def construct(self, inp, cfg):
         from zepid.causal.doublyrobust import AIPTW
-        return AIPTW(inp['df'], exposure='A', outcome='Y', alpha=cfg['alpha'])
+        return AIPTW(inp['df'], exposure='A', outcome='Y', alpha=cfg['alpha'], weights='fw' if cfg['fw'] else None)
 
     def gen_spec(self, rng, slot, cfg):
         if slot == 0:
@@ -999,7 +1008,7 @@ class FamSNM(Fam):
 
     def gen_cfg(self, rng):
         return {'outcome': rng.choice(['normal', 'normal', 'binary']), 'missing': rng.choice([None, 'mar', 'mcar']), 'index': rng.choice(INDEXES),
-                'fw': rng.random() < 0.2}
+                'fw': rng.random() < 0.4}
 
     def slot_ok(self, slot, cfg):
         return slot != 2 or bool(cfg['missing'])
@@ -1051,14 +1060,14 @@ class FamIPSW(Fam):
     required = [0]
 
     def gen_cfg(self, rng):
-        return {'generalize': rng.random() < 0.5, 'outcome': 'binary', 'index': rng.choice(INDEXES)}
+        return {'generalize': rng.random() < 0.5, 'outcome': 'binary', 'index': rng.choice(INDEXES), 'fw': rng.random() < 0.4}
 
     def gen_inputs(self, rng, cfg):
         return {'df': gen_general(rng, cfg)}
 
     def construct(self, inp, cfg):
         from zepid.causal.generalize import IPSW
-        return IPSW(inp['df'], exposure='A', outcome='Y', selection='S', generalize=cfg['generalize'])
+        return IPSW(inp['df'], exposure='A', outcome='Y', selection='S', generalize=cfg['generalize'], weights='fw' if cfg['fw'] else None)
 
     def gen_spec(self, rng, slot, cfg):
         stab = rng.random() < 0.6
@@ -1085,14 +1094,15 @@ class FamGTransport(Fam):
 
     def gen_cfg(self, rng):
         out = rng.choice(['binary', 'binary', 'normal'])
-        return {'generalize': rng.random() < 0.5, 'outcome': out, 'index': rng.choice(INDEXES)}
+        return {'generalize': rng.random() < 0.5, 'outcome': out, 'index': rng.choice(INDEXES), 'fw': rng.random() < 0.4}
 
     def gen_inputs(self, rng, cfg):
         return {'df': gen_general(rng, cfg)}
 
     def construct(self, inp, cfg):
         from zepid.causal.generalize import GTransportFormula
-        return GTransportFormula(inp['df'], exposure='A', outcome='Y', selection='S', outcome_type=cfg['outcome'], generalize=cfg['generalize'])
+        return GTransportFormula(inp['df'], exposure='A', outcome='Y', selection='S', outcome_type=cfg['outcome'], generalize=cfg['generalize'],
+                                 weights='fw' if cfg['fw'] else None)
 
     def gen_spec(self, rng, slot, cfg):
         return {'model': rng.choice(['A + W0 + C0', 'A + W0', 'A + W0 + A:W0 + C0'])}
@@ -1249,9 +1259,24 @@ def gen_history(fam, rng, cfg, style=None):
         for _ in range(rng.randint(0, 3)):
             ops.append(pure())
         return style, [o for o in ops if o][:8]
-    style = style or rng.choice(['guard', 'respec', 'refit', 'toggle', 'random', 'random'])
+    style = style or rng.choice(['guard', 'respec', 'refit', 'repeat', 'toggle', 'random', 'random'])
     order = list(req)
     rng.shuffle(order)
+    if style == 'repeat':
+        # fit() two or three times in a row, with or without one respecification in between: a refit must not compound anything
+        for sl in order:
+            ops.append(spec(sl))
+        if opt and rng.random() < 0.35:
+            ops.append(optional())
+        first = fit()
+        ops.append(first)
+        ops.append(list(first) if rng.random() < 0.7 else fit())
+        if rng.random() < 0.5:
+            ops.append(spec(rng.choice(req)))
+        ops.append(list(first) if rng.random() < 0.7 else fit())
+        if fam.summary and rng.random() < 0.4:
+            ops.append(['summary'])
+        return style, [o for o in ops if o][:8]
     if style == 'toggle':
         # documented pattern: specify with truncation / a user learner / stabilisation, fit, specify again WITHOUT them, fit
         rich = {}
@@ -1608,6 +1633,10 @@ def check_history(fam, case, ops, model, coding, info=None):
     return probs, h
 
 
+# classes whose constructor accepts `weights=` (non-constant positive integer column 'fw')
+WEIGHTED = ('IPTW', 'StochasticIPTW', 'TimeFixedGFormula', 'SurvivalGFormula', 'AIPTW', 'GEstimationSNM', 'IPSW', 'GTransportFormula')
+
+
 # ================================================================================================ the run
 IMPORTS = ['Zepid.Model.History']
 _PATCH_NOTE = []
@@ -1660,9 +1689,11 @@ def make_cases(ctx, fams, per_class):
     cases = []
     for fam in fams:
         k = max(2, int(round(per_class * fam.weight)))
-        styles = ['guard', 'respec', 'refit', 'toggle', 'random', 'random']
+        styles = ['guard', 'repeat', 'refit', 'toggle', 'respec', 'random', 'repeat', 'random']
         for j in range(k):
             cfg = fam.gen_cfg(ctx.rng)
+            if 'fw' in cfg and fam.name in WEIGHTED:
+                cfg['fw'] = (j % 2 == 1)                  # every style is seen with and without a caller-supplied weight column
             style, ops = gen_history(fam, ctx.rng, cfg, style=styles[j % len(styles)] if fam.slots else None)
             cases.append({'fam': fams.index(fam), 'name': fam.name, 'data_seed': ctx.rng.randrange(2 ** 31), 'cfg': cfg, 'ops': ops, 'style': style})
     return cases
